@@ -46,6 +46,10 @@ struct PagePlan {
     fault_permille: u64,
     fatal_allowed: bool,
     slow_allowed: bool,
+    /// Every non-final page carries the SAME opaque paging state (the node keeps the
+    /// cursor; fault-free, non-speculative queries only, so that "the page after the
+    /// last delivered one" is well defined).
+    constant_state: bool,
 }
 
 #[derive(Debug, Clone)]
@@ -63,6 +67,8 @@ struct PageReq {
 struct C07Script {
     plans: BTreeMap<u64, PagePlan>,
     reqs: BTreeMap<u64, Vec<PageReq>>,
+    /// Constant-handle plans: pages delivered so far per query.
+    delivered: BTreeMap<u64, usize>,
 }
 
 fn row(m: u64, i: usize) -> Vec<Cell> {
@@ -73,6 +79,9 @@ fn row(m: u64, i: usize) -> Vec<Cell> {
 }
 
 impl Script for C07Script {
+    // (on_user_request: with `constant_state` the node keeps the cursor itself - a legal
+    // server may hand out the same opaque handle with every page - and serves the page
+    // after the last one it delivered.)
     fn on_user_request(&mut self, w: &mut World, rq: &ReqInfo, req: &Request) -> Reply {
         let params = match req {
             Request::Query { text, params } if text.starts_with(PAGED_Q) => params,
@@ -87,6 +96,13 @@ impl Script for C07Script {
         };
         let page = match &params.paging_state {
             None => Some(0),
+            Some(ps) if plan.constant_state => {
+                if plan.states.first() == Some(ps) {
+                    Some(self.delivered.get(&m).copied().unwrap_or(0))
+                } else {
+                    None
+                }
+            }
             Some(ps) => plan.states.iter().position(|s| s == ps).map(|j| j + 1),
         };
         let fault = if plan.fault_permille > 0 && tape::chance("c07:fault", plan.fault_permille, 1000) {
@@ -185,6 +201,9 @@ impl Script for C07Script {
             col("ks1", "t1", "t", CType::Text),
         ];
         let last = j + 1 == plan.sizes.len();
+        if plan.constant_state {
+            self.delivered.insert(m, j + 1);
+        }
         let prepared = matches!(req, Request::Execute { .. });
         let body = wire::body_rows(
             &cols,
@@ -332,6 +351,7 @@ fn draw_page_plan(slow_allowed: bool) -> PagePlan {
         fault_permille: [0, 0, 100, 300][tape::choose("c07:fault_rate", 4) as usize],
         fatal_allowed: tape::chance("c07:fatal_allowed", 1, 2),
         slow_allowed,
+        constant_state: false,
     }
 }
 
@@ -411,7 +431,16 @@ async fn main(plan: Plan) -> Outcome {
         // Some queries run with a (short) client-side request timeout; slow pages
         // are not scripted for those, so that every scripted page is deliverable.
         let req_timeout: Option<u64> = [None, None, Some(300 * MS), Some(2 * SEC)][tape::choose("c07:req_timeout", 4) as usize];
-        let pp = draw_page_plan(req_timeout.is_none());
+        let mut pp = draw_page_plan(req_timeout.is_none());
+        if speculative.is_none() && pp.states.len() >= 2 && tape::chance("c07:constant_state", 1, 8) {
+            pp.constant_state = true;
+            pp.fault_permille = 0;
+            let s0 = if pp.states[0].is_empty() { vec![7u8] } else { pp.states[0].clone() };
+            for s in pp.states.iter_mut() {
+                *s = s0.clone();
+            }
+            out.count("constant_paging_state_queries", 1);
+        }
         {
             let mut w = world::world();
             let mut s = w.script.take().unwrap();
